@@ -32,7 +32,7 @@ ASSUMPTIONS = ["don't-care: bool for int fields, +-inf and NaN literals, ctypes 
                "float read-back compared via struct round trip; strings up to the first NUL"]
 REQUIRE = {"assignments": 20000, "refusals_required": 5000, "readbacks_compared": 5000, "atomicity_checked_on_raise": 5000,
            "disable_blocks_checked": 50, "checked_while_other_thread_in_disable_block": 10,
-           "writes_through_views_bound_inside_disable_block": 100, "disable_objects_reused": 30}
+           "writes_through_views_bound_inside_disable_block": 100, "disable_objects_reused": 30, "foreign_ctypes_arrays_assigned": 100}
 CASE_TIMEOUT = 120
 HUGE = 10 ** 400
 
@@ -226,6 +226,30 @@ def array_ops(mon, top, path, kind, rng, other=None):
             whole(bytearray(b), f"= bytearray with 128 at index {i}")
         whole(bytes([255] * n), "= bytes of 255s")
         whole(bytes(n + 1), "= bytes too long")
+    if kind[0] in ("intarray", "floatarray"):
+        # a raw ctypes array of ANOTHER element type holding one value outside the field's domain: the API takes ctypes
+        # arrays as sequences, so the element is refused like anywhere else and nothing is written
+        import ctypes as _ct
+        if ek[0] == "int":
+            lo, hi = FD.irange(ek[1], ek[2])
+            src_t, bad = ((_ct.c_int64, lo - 1) if ek[2] else (_ct.c_int64, -1)) if ek[1] < 64 or not ek[2] else (_ct.c_uint64, hi + 1)
+            if ek[1] < 64 and not ek[2]:
+                src_t, bad = rng.choice([(_ct.c_int64, -1), (_ct.c_uint64, hi + 1)])
+            fill_ok = 1
+        else:
+            src_t, bad, fill_ok = _ct.c_double, 1e300, 1.5
+        if not (ek[0] == "float" and ek[1] == 64):
+            for i in sorted({0, n - 1}):
+                vals = [fill_ok] * n
+                vals[i] = bad
+                arr = (src_t * n)(*vals)
+                mon.bump("foreign_ctypes_arrays_assigned")
+                mon.attempt(top, path, kind, lambda arr=arr: setattr(parent, name, arr), read_all, "refuse", None,
+                            f"= {src_t.__name__}[{n}] with {bad!r} at index {i}", region, FD.seq_equal)
+                if n >= 2:
+                    sl = (src_t * 1)(bad)
+                    mon.attempt(top, path, kind, lambda sl=sl, i=i: getattr(parent, name).__setitem__(slice(i, i + 1), sl), read_all, "refuse", None,
+                                f"[{i}:{i + 1}] = {src_t.__name__}[1] holding {bad!r}", region, FD.seq_equal)
     if kind[0] == "bytearray":
         whole(bytes(base), "= bytes")
         whole(bytearray(base), "= bytearray")
